@@ -12,6 +12,11 @@ from .automaton import Aut, single_string
 from .common import (EXIT_INCONCLUSIVE, EXIT_OK, EXIT_VIOLATION, Timer, log, match_known, save_replay, seed, tier, write_evidence)
 
 HAND = [
+    # the same rule quantified twice (builder caches keyed by (element, n))
+    dict(names=["start", "r1"], rules={"start": ("seq", [("rep", ("r", "r1"), 0, 2), ("t", "c"), ("rep", ("r", "r1"), 2, 2)]), "r1": ("alt", [("t", "a"), ("t", "b")])}),
+    dict(names=["start", "r1"], rules={"start": ("seq", [("rep", ("r", "r1"), 2, 2), ("t", "c"), ("rep", ("r", "r1"), 0, 2)]), "r1": ("alt", [("t", "a"), ("t", "b")])}),
+    dict(names=["start", "r1"], rules={"start": ("seq", [("rep", ("r", "r1"), 1, 3), ("t", "c"), ("rep", ("r", "r1"), 2, None), ("t", "d"), ("rep", ("r", "r1"), 2, 2)]), "r1": ("t", "a")}),
+    dict(names=["start", "r1"], rules={"start": ("alt", [("seq", [("opt", ("r", "r1")), ("t", "c"), ("rep", ("r", "r1"), 1, 1)]), ("seq", [("star", ("r", "r1")), ("t", "d"), ("plus", ("r", "r1"))])]), "r1": ("t", "a")}),
     # empty productions, left / right / mutual recursion, ambiguity, grouping
     dict(names=["start", "r1"], rules={"start": ("alt", [("seq", [("r", "start"), ("t", "a")]), ("r", "r1")]), "r1": ("alt", [("empty",), ("t", "b")])}),
     dict(names=["start", "r1"], rules={"start": ("alt", [("seq", [("t", "a"), ("r", "start")]), ("r", "r1")]), "r1": ("seq", [("t", "b"), ("opt", ("t", "c"))])}),
